@@ -12,6 +12,15 @@ of the nested storages of a MultiDiffBaseStorage does not matter; the closed loo
 object as the next event) is a no-op on every configuration. A failure is attributed to an OPEN finding only if that finding can
 explain it (F8 never explains a change AT a storage's own status field / exact annotation key: those are cleaned after the
 handlers' fields are restored); failures are kept per class (FAIL_PER_CLASS), so a frequent known class never crowds out another.
+
+White-box hunt (review/wb/C04): the LIFE of an object through the real `process_resource_causes` (creation -> quiet -> edit ->
+quiet -> restart -> deletion; generated storages, handlers of every kind incl. other resources' and on.event fields; every patch
+comes back as the next event): WHICH handlers are called (exactly those whose cause it is and whose (field of the) essence
+changed, once), their kwargs on every cause (creation: old is None; resuming; deletion), what a finished cycle leaves behind (the
+stored last-handled state IS the essence; own writes invisible; an event without an essential change calls nobody and sends nothing).
+An exception raised inside kopf's sources is a verdict with the input as replay (never a skipped case or a crash of the check).
+The decisions taken from the two essences (cause, store guard, field-handler selection) are modelled (Model/C04_Cycle.lean),
+proved (Props/C04_Cycle.lean) and tied to what the real cycles do.
 """
 from __future__ import annotations
 
@@ -58,6 +67,13 @@ LEVEL_TEXT = (
     "metadata.annotations = F8, multi_marker_restored_witness), nested_ignored_fields_cleaned (ignored_fields of EVERY nested storage), "
     "multi_cleaning_order_independent (both hold for every permutation of the nested storages), instance "
     "multi_transitional_store_invisible (docs' Multi([Status, Annotations]) with handlers on status and metadata.annotations). "
+    "The decisions of a processing cycle, taken from the two essences (Model/C04_Cycle.lean = causes.detect_changing_cause, the store "
+    "guard of processing.process_changing_cause, registries._matches_field_changes): noop_is_stable, creation_settles, "
+    "settled_after_store (whenever the guard lets the store through the next event is a NOOP), unchanged_field_not_selected (a field "
+    "JSON-equal on both sides never selects its handler) — full strength; update_settles_partial and field_handler_selected_partial "
+    "under noBool (no boolean in old/new resp. in the field's values: a guard broader than the gap), the gap itself proved: "
+    "stale_last_handled_witness + field_handler_not_selected_witness = finding C04-F12 (Python's != in the store guard and in the "
+    "field-handler selection: 1 -> true is an UPDATE that is never recorded as handled and never selects the handler of that field). "
     "Oracle/tie only (NO theorem): the composition fetch∘store (`diff(clear(fetch(body')), clear(build(body')))` after a real "
     "store/purge/touch: key names, marker and merge are modelled, the JSON encoding is not), what handlers receive in a cycle "
     "(real process_resource_causes with several handlers, field= and whole-object mixed, all lifecycles), statelessness of the "
@@ -67,7 +83,8 @@ LEVEL_TEXT = (
     "the bodies after every own write and after the writes of OTHER Kopf operators' real storages (arbitrary prefixes), on one "
     "shared storage instance serving sequences of objects; handlers' kwargs in real cycles are tied to the model's reduce.")
 TIE = ("D (differential: real diff/reduce/build/clear/make_keys vs. the Lean model, incl. post-write bodies and shared-storage "
-       "sequences) + constants read from the AST")
+       "sequences; the cause / the selected field handlers / the state stored by real processing cycles vs. the model's "
+       "detect / selected / afterCycle) + constants read from the AST")
 THEOREMS: list[tuple[str, str]] = []     # filled below from THEOREM_NAMES
 RULE = ("seeded, type-directed: Kubernetes-shaped bodies (nesting <= 5, empty containers, nulls, unicode keys/values, "
         "booleans next to 0/1, annotation names with and without kopf prefixes/markers), b = 0..3 point mutations of a "
@@ -78,7 +95,12 @@ RULE = ("seeded, type-directed: Kubernetes-shaped bodies (nesting <= 5, empty co
         "storages in every order (status-based first/middle/last/absent/twice, annotations with different prefixes and keys, "
         "ignored_fields on nested storages), handler fields that do / do not cover the nested storages' own locations, bodies "
         "carrying the nested storages' stored states, all orders of the nested storages compared, and on EVERY configuration the "
-        "closed loop store -> next event -> must be a no-op (3 rounds); a case is distinct by its canonical input and "
+        "closed loop store -> next event -> must be a no-op (3 rounds); lives of one object through the real process_resource_causes "
+        "(10 diff-base x 10 progress storage configurations, 1-5 handlers @on.create/update/field/resume/delete with and without "
+        "field= incl. status fields, @on.event(field=) and handlers of another resource, 4 lifecycles; edits: payload mutations, "
+        "bool<->number only, status only, nothing essential, a field appears (also with a falsy value) / disappears; quiet probes: the "
+        "same object, a system-metadata bump, a foreign status write, another Kopf operator's real writes; then an operator restart "
+        "with the object unchanged or edited while down, then the deletion); a case is distinct by its canonical input and "
         "non-trivial when the diff is non-empty / the essence dropped or kept something / an error branch was hit")
 TRUSTED = ["harness/props/c04.py: the Python oracle (own applier, own RFC 7386 merge, strict JSON equality)",
            "the configuration of the model is read off the real storage objects' attributes (prefix, key, v1, field, ignored_fields)",
@@ -102,7 +124,15 @@ ASSUMPTIONS = ["numbers are integers (no floats in generated bodies)",
                "the storage's own store/purge/touch wrote (marker excepted); the order-of-nested-storages oracle compares only when every "
                "order builds without an exception (an ignored `status` before/after a status storage on a scalar status may raise in one order only)",
                "the shared-storage sequence oracle compares with a fresh storage per object: it sees state carried between objects, "
-               "not a defect present in fresh and shared storages alike (those are the per-body oracle's subject)"]
+               "not a defect present in fresh and shared storages alike (those are the per-body oracle's subject)",
+               "life cases: handlers succeed at once and return nothing (no retries, no results stored in status.<id>); the handlers' fields "
+               "never cover metadata… (finding F8 is the pure level's subject, so NO failure of a life is attributed to it); sub-handlers are "
+               "not generated (a sub-handler's field= is resolved against the parent's narrowed cause: semantics unspecified, see NOTES); an "
+               "object that matches no handler's criteria is expected to be left untouched (nothing stored); bodies whose metadata is not a "
+               "mapping are not judged (impossible on a Kubernetes API), every other exception raised inside kopf is an oracle failure "
+               "(finding C04-F13 explains a TypeError only when a handler's/storage's field passes through a non-mapping value of the body)",
+               "own-write and closed-loop oracles skip a storage write whose configured location lies below a non-mapping value of the "
+               "object (e.g. diff-base field spec.lhc and spec: false: the merge-patch replaces the value)"]
 
 THEOREM_NAMES = [
     "diff_self_empty", "diff_empty_iff", "apply_diff", "reduce_exact", "reduce_apply", "reduce_empty_iff",
@@ -119,6 +149,8 @@ THEOREM_NAMES = [
     "label_change_detected", "ordinary_annotation_change_detected",
     "nested_own_writes_cleaned_partial", "nested_ignored_fields_cleaned", "multi_cleaning_order_independent",
     "multi_transitional_store_invisible", "multi_marker_restored_witness",
+    "noop_is_stable", "creation_settles", "settled_after_store", "update_settles_partial", "stale_last_handled_witness",
+    "field_handler_selected_partial", "unchanged_field_not_selected", "field_handler_not_selected_witness",
 ]
 
 QUICK_PAIRS, THOROUGH_PAIRS = 5000, 300000
@@ -1161,6 +1193,9 @@ def eval_ess_case(K: dict, case: dict, out: Out) -> None:
         else:
             out.count("essence_raises", "malformed metadata (not judged)")
         return
+    if not wellformed_meta(body):
+        out.count("essence_raises", "malformed metadata, essence built (tie only, not judged)")
+        return
     E = res[1]
     metab = body.get("metadata") if isinstance(body.get("metadata"), dict) else {}
     anns = metab.get("annotations") if isinstance(metab.get("annotations"), dict) else {}
@@ -1247,6 +1282,12 @@ def eval_ess_case(K: dict, case: dict, out: Out) -> None:
             failed = True
             break
         out.count("own_writes", w["w"] + ("" if written else " (empty patch)"))
+        if w["w"] in STORAGE_WRITES and any(through_non_mapping(cur, wp) for wp in written):
+            # the storage is configured to write below a value that is no mapping in this object (e.g. a diff-base field
+            # `spec.lhc` and `spec: false`): the merge-patch REPLACES that value — not a question of change detection.
+            out.count("own_writes", f"{w['w']}: the configured location is below a non-mapping value (not judged)")
+            failed = True
+            break
         res2 = real_essence(K, ds, ps, nb, extra)
         out.ask("diffbase.build + progress.clear (after an own write)", ["C04.essence", mcfg, mextra, nb], res2,
                 dict(replay, write=w, body=nb))
@@ -1299,6 +1340,9 @@ def eval_ess_case(K: dict, case: dict, out: Out) -> None:
             pj = json.loads(json.dumps(dict(patch)))
             nb = merge_patch(cur, pj)
             written = leaf_paths(pj) if pj else []
+            if any(through_non_mapping(cur, wp) for wp in written):
+                out.count("closed_loop", "the configured location is below a non-mapping value (not judged)")
+                break
             r1 = real_essence(K, ds, ps, nb, extra)
             try:
                 old = ds.fetch(body=B(nb))
@@ -1708,7 +1752,7 @@ LIFE_ANNOTATIONS = [{}, {}, {"plain": "v"}, {"example.com/owner": "me", "kubectl
 FALSY = [0, False, "", {}, []]
 LIFE_PROBES = ["same", "sysmeta", "foreign-status", "other-operator"]
 OTHER_RESOURCE = ("kopf.dev", "v1", "others")
-LIFE_MODEL_TIE = False     # switched on with the model ops C04.detect / C04.selected / C04.after (Model/C04_Cycle.lean)
+LIFE_MODEL_TIE = True      # the model ops the model ops C04.detect / C04.selected / C04.after (Model/C04_Cycle.lean)
 
 
 def gen_life_case(rng: random.Random) -> dict:
@@ -1789,7 +1833,7 @@ def gen_life_case(rng: random.Random) -> dict:
             edit["status"] = {"phase": "Running"}
     hs: list[dict] = []
     for i in range(rng.choice([1, 2, 3, 3, 4, 5])):
-        deco = rng.choice(["create", "update", "update", "field", "field"])
+        deco = rng.choice(["create", "update", "update", "field", "field", "resume", "delete"])
         f = rng.choice(LIFE_FIELDS)
         if deco == "field" and f is None:
             f = rng.choice(["spec", "spec.flag", "spec.n"])
@@ -1799,8 +1843,14 @@ def gen_life_case(rng: random.Random) -> dict:
                    "field": rng.choice(LIFE_OTHER_FIELDS)})
     if rng.random() < 0.25:
         hs.append({"id": "ev", "res": "main", "deco": "event", "field": rng.choice([None, "status.phase", "spec.n", "status.other"])})
+    # ---- afterwards: the operator restarts (the object unchanged, or edited while the operator was down), the object is deleted
+    restart = rng.choice([None, "same", "same", "edited"])
+    base_spec = edit.get("spec", spec)
+    edit2 = rng.choice([{"spec": dict(base_spec, n=12345)}, {"labels": {"app": "z"}}, {"spec": dict(base_spec, restarted={"deep": True})},
+                        {"status": {"phase": "Restarted"}}])
     return {"kind": "life", "diffbase": copy.deepcopy(rng.choice(LIFE_DIFFBASE)), "progress": copy.deepcopy(rng.choice(LIFE_PROGRESS)),
-            "body": body, "edit": edit, "edit_kind": kind, "handlers": hs,
+            "body": body, "edit": edit, "edit_kind": kind, "handlers": hs, "restart": restart, "edit2": edit2,
+            "delete": rng.random() < 0.4,
             "lifecycle": rng.choice(["all_at_once", "all_at_once", "asap", "shuffled", "one_by_one"]),
             "probes": [rng.choice(LIFE_PROBES), rng.choice(LIFE_PROBES)], "lseed": rng.getrandbits(32)}
 
@@ -1971,8 +2021,15 @@ class _Life:
             else:
                 getattr(kopf.on, h["deco"])(*res, **kw)(mk(h["id"]))
 
+    def restart(self) -> None:
+        """The operator restarts: a new memory, the object is noticed by the initial listing (resuming applies)."""
+        self.memory = self.E["inventory"].ResourceMemory()
+        self.memory.noticed_by_listing = True
+
     async def event(self, body: dict) -> tuple[dict | None, BaseException | None]:
-        """One real processing cycle for one event; returns the patch as it goes over the wire."""
+        """One real processing cycle for one event; returns the object as the API would hold it after the cycle's patch
+        (merge-patch part with the oracle's own RFC 7386 merge; the transformation functions — the finalizer edits —
+        applied to the result), or None when nothing would be sent."""
         B, P = self.K["bodies"].Body, self.K["patches"].Patch
         patch = P()
         self.cycle_no += 1
@@ -1984,7 +2041,13 @@ class _Life:
                 operator_paused=None, consistency_time=None)
         except Exception as ex:  # noqa: BLE001 — the code's own exceptions are a verdict; the harness's are re-raised by the caller
             return None, ex
-        return json.loads(json.dumps(dict(patch))), None
+        pj = json.loads(json.dumps(dict(patch)))
+        nb = merge_patch(body, pj) if pj else copy.deepcopy(body)
+        for fn in patch.fns:
+            fn(nb)
+        if leanio.canon(nb) == leanio.canon(body):
+            return None, None
+        return {"patch": pj, "fns": len(patch.fns), "body": nb}, None
 
     async def settle(self, body: dict, phase: str, limit: int) -> dict:
         """Events until nothing is sent any more (every patch comes back as the next event)."""
@@ -1992,14 +2055,14 @@ class _Life:
         cycles = 0
         patches: list = []
         while True:
-            pj, ex = await self.event(body)
+            sent, ex = await self.event(body)
             cycles += 1
             if ex is not None:
                 return {"body": body, "cycles": cycles, "raised": ex, "patches": patches, "settled": False}
-            if not pj:
+            if sent is None:
                 return {"body": body, "cycles": cycles, "raised": None, "patches": patches, "settled": True}
-            patches.append(pj)
-            body = bump(merge_patch(body, pj))
+            patches.append(sent["patch"] if sent["patch"] else {"metadata": {"finalizers": "(edited by a patch function)"}})
+            body = bump(sent["body"])
             if cycles >= limit:
                 return {"body": body, "cycles": cycles, "raised": None, "patches": patches, "settled": False}
 
@@ -2023,8 +2086,8 @@ def eval_life_cases(K: dict, cases: list[dict], out: Out) -> None:
 
 
 async def _eval_life(K: dict, E: dict, case: dict, out: Out) -> None:
-    replay = {k: case[k] for k in ("kind", "diffbase", "progress", "body", "edit", "edit_kind", "handlers", "lifecycle", "probes", "lseed")
-              if k in case}
+    replay = {k: case[k] for k in ("kind", "diffbase", "progress", "body", "edit", "edit_kind", "handlers", "lifecycle", "probes", "lseed",
+                                   "restart", "edit2", "delete") if k in case}
     random.seed(case["lseed"])                         # lifecycles.shuffled/randomized use the global PRNG
     hs_main = [h for h in case["handlers"] if h["res"] == "main"]
     changing = [h for h in hs_main if h["deco"] != "event"]
@@ -2066,8 +2129,10 @@ async def _eval_life(K: dict, E: dict, case: dict, out: Out) -> None:
                 return True
         return False
 
-    def judge_calls(phase: str, e_old: Any, e_new: Any, rp: dict) -> bool:
-        """Exactly the handlers whose (field of the) essence changed were called, once, with exact kwargs."""
+    def judge_calls(phase: str, e_old: Any, e_new: Any, rp: dict, kind: str = "event") -> bool:
+        """Exactly the handlers whose cause this is and whose (field of the) essence changed were called, once, with exact
+        kwargs. `kind`: "event" (creation if nothing is stored, else update / no-op), "restart" (the first event after the
+        operator's start: resuming handlers are mixed in), "deletion" (the object is marked for deletion and held by us)."""
         calls = [c for c in life.calls if c["phase"] == phase]
         ok = True
         creation = e_old is None
@@ -2077,8 +2142,16 @@ async def _eval_life(K: dict, E: dict, case: dict, out: Out) -> None:
             f = parse_field(h["field"])
             mine = [c for c in calls if c["id"] == h["id"]]
             nv = resolve_abs(e_new, f)
-            if creation:
-                expected: bool | None = (h["deco"] == "create" and (not f or nv is not ABSENT)) or (h["deco"] == "field" and nv is not ABSENT)
+            there = not f or nv is not ABSENT or (not creation and resolve_abs(e_old, f) is not ABSENT)   # the field, now or before
+            expected: bool | None
+            if kind == "deletion":
+                expected = h["deco"] == "delete" and there
+            elif h["deco"] == "delete":
+                expected = False
+            elif h["deco"] == "resume":
+                expected = kind == "restart" and not creation and there
+            elif creation:
+                expected = (h["deco"] == "create" and (not f or nv is not ABSENT)) or (h["deco"] == "field" and nv is not ABSENT)
                 if f and nv is None:
                     expected = None                       # a null-valued field: present or not is the open finding F10's question
             elif h["deco"] == "create":
@@ -2089,10 +2162,12 @@ async def _eval_life(K: dict, E: dict, case: dict, out: Out) -> None:
             if expected is not None and (len(mine) == 1) != expected or len(mine) > 1:
                 ov = None if creation else resolve_abs(e_old, f)
                 a, b = (None if ov is ABSENT else ov), (None if nv is ABSENT else nv)
-                if creation or ov is ABSENT or nv is ABSENT:
+                if creation or h["deco"] in ("delete", "resume") or kind == "deletion":
                     sig = SIG_SELECT
-                elif len(mine) <= 1 and equiv_strict(a, b):
-                    sig = SIG_F10
+                elif len(mine) > 1 and only_boolint(e_old, e_new):
+                    sig = SIG_F12                         # the update is never recorded as handled: every event repeats it
+                elif len(mine) <= 1 and (equiv_strict(a, b) or (not mine and equiv_strict(e_old, e_new))):
+                    sig = SIG_F10                         # null-valued vs. absent keys only (the whole cause is a NOOP then)
                 elif len(mine) == 0 and f and equiv_py(a, b):
                     sig = SIG_F12                         # the field handler's `old != new` is Python's
                 else:
@@ -2100,6 +2175,9 @@ async def _eval_life(K: dict, E: dict, case: dict, out: Out) -> None:
                 what = ("is called %d times" % len(mine)) if len(mine) > 1 else \
                     "is NOT called although its %s changed" % ("field " + ".".join(f) if f else "object") if expected else \
                     "is called although %s" % ("this is no creation" if h["deco"] == "create" and not creation else
+                                               "this is no deletion" if h["deco"] == "delete" else
+                                               "the object is being deleted" if kind == "deletion" else
+                                               "nothing is to be resumed" if h["deco"] == "resume" else
                                                "its %s did not change" % ("field " + ".".join(f) if f else "object"))
                 out.fail("oracle", f"{phase}: handler {h['id']} (@on.{h['deco']}, field={h['field']!r}) {what}",
                          dict(rp, handler=h, calls=[c["id"] for c in calls], essence_old=e_old, essence_new=e_new), sig)
@@ -2124,7 +2202,7 @@ async def _eval_life(K: dict, E: dict, case: dict, out: Out) -> None:
                 out.ask("kwargs diff of a handler vs. reduce of the whole diff (life)", ["C04.reduce", whole, f], c["diff"], crp)
         return ok
 
-    def judge_rest(phase: str, st: dict, e_ref: Any, rp: dict) -> bool:
+    def judge_rest(phase: str, st: dict, e_ref: Any, rp: dict, e_prev: Any = None) -> bool:
         """What the finished cycle left behind: it came to rest, own writes are invisible, the stored state is the essence.
         (No exemption for the open finding F8 here: the generated handler fields never cover `metadata…`, and every storage
         cleans its own status field / annotation keys AFTER the handlers' fields are restored.)"""
@@ -2140,7 +2218,8 @@ async def _eval_life(K: dict, E: dict, case: dict, out: Out) -> None:
             return False
         if not st["settled"]:
             out.fail("oracle", f"{phase}: the handling does not come to rest: after {st['cycles']} cycles every patch still brings a "
-                               f"new patch (handling triggers itself)", dict(rp, patches=st["patches"][-3:], body_at=body), SIG_SETTLE)
+                               f"new patch (handling triggers itself)", dict(rp, patches=st["patches"][-3:], body_at=body),
+                     SIG_F12 if e_prev is not None and only_boolint(e_prev, e_ref) else SIG_SETTLE)
             return False
         try:
             fetched = fetched_of(body)
@@ -2237,7 +2316,7 @@ async def _eval_life(K: dict, E: dict, case: dict, out: Out) -> None:
     if not attended(e0[1], e1[1]):
         out.count("life_outcome", "the edited object matches no handler (blind)")
         return
-    ok = judge_rest("update", st, e1[1], rp) and ok
+    ok = judge_rest("update", st, e1[1], rp, e0[1]) and ok
     try:
         now_stored = fetched_of(st["body"])
     except (ValueError, AttributeError):
@@ -2260,7 +2339,58 @@ async def _eval_life(K: dict, E: dict, case: dict, out: Out) -> None:
         out.count("life_outcome", "failed in update")
         return
     body = await quiet("quiet after update", st["body"], case["probes"][1], e1[1], rp)
-    out.count("life_outcome", "complete" if body is not None else "ended at the second quiet probe")
+    if body is None:
+        out.count("life_outcome", "ended at the second quiet probe")
+        return
+    e_last = e1[1]
+    # ---- phase E: the operator restarts; the object is as it was, or was edited while the operator was down ---------
+    if case.get("restart"):
+        life.restart()
+        body2 = apply_life_edit(body, case["edit2"]) if case["restart"] == "edited" else bump(body)
+        e2 = essence_of(body2)
+        st = await life.settle(body2, "restart", limit)
+        if st["raised"] is not None:
+            raised("restart", st["raised"], body2, rp)
+            return
+        if e2[0] != "ok":
+            return
+        out.count("life_restart", "the object was edited while the operator was down" if not strict_eq(e2[1], e_last) else "the object is unchanged")
+        ok = judge_calls("restart", e_last, e2[1], rp, "restart")
+        ok = (judge_rest("restart", st, e2[1], rp, e_last) if attended(e_last, e2[1]) else True) and ok
+        if not ok:
+            out.count("life_outcome", "failed at the restart")
+            return
+        body = await quiet("quiet after the restart", st["body"], "same", e2[1], rp)
+        if body is None:
+            out.count("life_outcome", "ended at the quiet probe after the restart")
+            return
+        e_last = e2[1]
+    # ---- phase D: the object is deleted (held by the operator's finalizer if a deletion handler matches it) ------------
+    if case.get("delete"):
+        bodyd = bump(body)
+        bodyd["metadata"]["deletionTimestamp"] = "2020-02-02T00:00:00Z"
+        held = FINALIZER in (bodyd["metadata"].get("finalizers") or [])
+        out.count("life_deletion", "held by the operator's finalizer" if held else "not held (no deletion handler matches)")
+        st = await life.settle(bodyd, "deletion", limit)
+        if st["raised"] is not None:
+            raised("deletion", st["raised"], bodyd, rp)
+            return
+        if held:
+            ok = judge_calls("deletion", e_last, e_last, rp, "deletion")
+            if ok and (not st["settled"] or FINALIZER in (st["body"]["metadata"].get("finalizers") or [])):
+                out.fail("oracle", "deletion: the deletion handlers are done but the object is not released / the handling does not come to rest",
+                         dict(rp, patches=st["patches"][-3:], body_at=st["body"]),
+                         {"site": "processing.process_resource_causes", "shape": "the object is not released after its deletion handlers"})
+                ok = False
+        else:
+            called = [c["id"] for c in life.calls if c["phase"] == "deletion"]
+            ok = not called
+            if called:
+                out.fail("oracle", f"deletion: handlers {called} are called for an object the operator does not hold", dict(rp, called=called), SIG_SELECT)
+        if not ok:
+            out.count("life_outcome", "failed at the deletion")
+            return
+    out.count("life_outcome", "complete")
     if life.calls:
         out.keys.add(digest(["life", case["diffbase"], case["progress"], case["handlers"], case["lifecycle"], case["body"], case["edit"]]))
     if len(out.samples) < 6 and life.calls and len(leanio.canon(replay)) < 2500 and not any(s.get("kind") == "life" for s in out.samples):
@@ -2485,4 +2615,7 @@ def replay(ctx: Ctx, data: dict) -> None:
 WITNESS_NAMES = {"kopf_dev_touch_invisible", "marker_first_write_witness", "adoption_loses_last_handled_witness",
                  "touch_field_cleaned", "extra_annotations_witness", "status_handler_touch_invisible", "multi_drs_own_key_invisible",
                  "multi_transitional_store_invisible", "multi_marker_restored_witness"}
-THEOREMS = [("Kopf.Props.C04_Witnesses" if n in WITNESS_NAMES else "Kopf.Props.C04", f"Kopf.C04.{n}") for n in THEOREM_NAMES]
+CYCLE_NAMES = {"noop_is_stable", "creation_settles", "settled_after_store", "update_settles_partial", "stale_last_handled_witness",
+               "field_handler_selected_partial", "unchanged_field_not_selected", "field_handler_not_selected_witness"}
+THEOREMS = [("Kopf.Props.C04_Witnesses" if n in WITNESS_NAMES else "Kopf.Props.C04_Cycle" if n in CYCLE_NAMES else "Kopf.Props.C04",
+             f"Kopf.C04.{n}") for n in THEOREM_NAMES]
